@@ -253,10 +253,11 @@ def pipeline_typestate(ctx: Ctx) -> None:
 def attribute_namespace_agreement(ctx: Ctx) -> None:
     """The generator omits a field's namespace only for kinds that inherit the class namespace at run time (elements / wildcards), never for attributes."""
     rn = ctx.repo.func(f"{BLD}.resolve_namespaces")
-    inherit = set()
-    for node in walk_no_nested(rn.node):
-        if isinstance(node, ast.Compare) and isinstance(node.ops[0], ast.In) and unparse(node.left) == "xml_type" and isinstance(node.comparators[0], ast.Tuple):
-            inherit = {unparse(e).split(".")[-1] for e in node.comparators[0].elts}
+    # under which field kinds can `namespace = parent_namespace` run?  (partial evaluation over the xml_type parameter)
+    dk = Dispatch(rn.node, is_subject=lambda e: isinstance(e, ast.Name) and e.id == "xml_type")
+    inh_nodes = [n.id for n in dk.g.stmts() if isinstance(n.ast, ast.Assign) and isinstance(n.ast.targets[0], ast.Name) and n.ast.targets[0].id == "namespace" and unparse(n.ast.value) == "parent_namespace"]
+    default_ids = {n.id for n in dk.under(None)}
+    inherit = {k.split(".")[-1] for k in dk.keys if any(i in {n.id for n in dk.under(k)} for i in inh_nodes)} if inh_nodes and not any(i in default_ids for i in inh_nodes) else {"<every kind>"}
     ctx.ob("runtime: only ELEMENT and WILDCARD fields inherit the parent namespace", inherit == {"ELEMENT", "WILDCARD"}, at=rn, construct="runtime inheritance", msg=f"inheriting kinds {sorted(inherit)}")
     fm = ctx.repo.func(f"{FIL}.field_metadata")
     g = build_cfg(fm.node)
